@@ -5,6 +5,8 @@ import ObiVerif.Model.FlatFile
 import ObiVerif.Lemmas.Chunk
 import ObiVerif.Lemmas.Fasta
 import ObiVerif.Lemmas.Reseq
+import ObiVerif.Lemmas.Splitters
+import ObiVerif.Lemmas.FastaGrammar
 /-!
 # C01 — parsed records do not depend on chunk boundaries, transport or parser workers
 
@@ -54,59 +56,6 @@ theorem chunks_terminate (split : Seq → Int) (Cut : Seq → Seq → Prop) (hs 
 /-- a 0 returned by the splitter is what the contract excludes: the model (like the code) loops -/
 example : chunks (fun _ => 0) 4 [62, 97, 10, 65] = none := by decide
 
-/-- the file is: a run of end-of-line bytes, chunk 0, a run of end-of-line bytes, chunk 1, …, a run
-of end-of-line bytes (runs may be empty) -/
-inductive StripJoin : List Seq → Seq → Prop
-  | nil {e : Seq} : AllEol e → StripJoin [] e
-  | cons {e c rest : Seq} {cs : List Seq} : AllEol e → StripJoin cs rest → StripJoin (c :: cs) (e ++ c ++ rest)
-
-theorem allEol_append {a b : Seq} (ha : AllEol a) (hb : AllEol b) : AllEol (a ++ b) := by
-  intro c hc
-  rcases List.mem_append.mp hc with h | h
-  · exact ha c h
-  · exact hb c h
-
-theorem StripJoin.prepend {e t : Seq} {cs : List Seq} (he : AllEol e) (h : StripJoin cs t) :
-    StripJoin cs (e ++ t) := by
-  cases h with
-  | nil h0 => exact StripJoin.nil (allEol_append he h0)
-  | cons h0 hr =>
-    rename_i e0 c rest cs'
-    have := StripJoin.cons (c := c) (allEol_append he h0) hr
-    simpa [List.append_assoc] using this
-
-theorem pieces_stripJoin {Cut : Seq → Seq → Prop} {cs : List Seq} {t : Seq} (h : Pieces Cut cs t) :
-    StripJoin cs t ∧ ∀ c ∈ cs, c ≠ [] := by
-  induction h with
-  | nil h0 => exact ⟨StripJoin.nil h0, by simp⟩
-  | @lastStripped t hne =>
-    obtain ⟨e, he, hall⟩ := stripEol_decomp t
-    constructor
-    · have := StripJoin.cons (e := []) (c := stripEol t) allEol_nil (StripJoin.nil hall)
-      simp only [List.nil_append] at this
-      rw [← he] at this
-      exact this
-    · intro c hc; simp at hc; rw [hc]; exact hne
-  | @lastRaw t hne =>
-    constructor
-    · have := StripJoin.cons (e := []) (c := t) allEol_nil (StripJoin.nil allEol_nil)
-      simpa using this
-    · intro c hc; simp at hc; rw [hc]; exact hne
-  | @cut a b cs _ hne _ ih =>
-    obtain ⟨e, he, hall⟩ := stripEol_decomp a
-    constructor
-    · have := StripJoin.cons (e := []) (c := stripEol a) allEol_nil (ih.1.prepend hall)
-      simp only [List.nil_append] at this
-      rw [← List.append_assoc, ← he] at this
-      exact this
-    · intro c hc
-      simp only [List.mem_cons] at hc
-      rcases hc with rfl | hc
-      · exact hne
-      · exact ih.2 c hc
-  | @skip a b cs _ hnil _ ih =>
-    exact ⟨ih.1.prepend (allEol_of_strip_nil hnil), ih.2⟩
-
 /-- **chunks_reassemble**: for a splitter honouring its contract, the chunk texts, in order, are the
 file minus the runs of end-of-line bytes that were cut; no chunk is empty. -/
 theorem chunks_reassemble (split : Seq → Int) (Cut : Seq → Seq → Prop) (hs : SplitterOK split Cut)
@@ -129,81 +78,6 @@ example : splitFasta [62, 97, 10, 65, 67, 10, 62, 98, 10, 71] = 6 := by decide
 example : splitFasta [62, 97, 10, 65, 67] = -1 := by decide
 
 /-! ## 3. FASTA: chunks are whole records, the parser is record-local, the reader is chunk-independent -/
-
-theorem complete_not_allEol {t : Seq} {rs : List Rec} {id d sq : Seq} (h : FaComplete t rs id d sq)
-    (ha : AllEol t) : False := by
-  obtain ⟨pe, hrun⟩ := h
-  cases t with
-  | nil => simp [faRun] at hrun
-  | cons c t' =>
-    have hc : isEol c = true := ha c (by simp)
-    rcases eol_cases hc with rfl | rfl <;> simp [faRun, faStep] at hrun
-
-theorem complete_strip {t : Seq} {rs : List Rec} {id d sq : Seq} (h : FaComplete t rs id d sq) :
-    FaComplete (stripEol t) rs id d sq := by
-  obtain ⟨pe, hrun⟩ := h
-  obtain ⟨e, he, hall⟩ := stripEol_decomp t
-  rw [he, faRun_append] at hrun
-  cases h1 : faRun .s0 (stripEol t) with
-  | error x => rw [h1] at hrun; cases hrun
-  | ok p =>
-    obtain ⟨s', r1⟩ := p
-    rw [h1] at hrun
-    simp only at hrun
-    cases h2 : faRun s' e with
-    | error x => rw [h2] at hrun; cases hrun
-    | ok p2 =>
-      obtain ⟨s'', r2⟩ := p2
-      rw [h2] at hrun
-      simp only [Except.ok.injEq, Prod.mk.injEq] at hrun
-      obtain ⟨rfl, rfl⟩ := hrun
-      obtain ⟨pe', hs, hr⟩ := faRun_eols_s6 e s' id d sq pe r2 hall h2
-      subst hs; subst hr
-      exact ⟨pe', by simpa using h1⟩
-
-/-- what the workers produce from the chunks of a whole-records text, taken in chunk order -/
-theorem pieces_parse {cs : List Seq} {t : Seq} (hp : Pieces FastaCut cs t) :
-    ∀ (rs : List Rec) (id d sq : Seq), FaComplete t rs id d sq →
-      (∃ rss : List (List Rec), cs.map parseFasta = rss.map Except.ok ∧ rss.flatten = rs ++ [mkRec id d sq]) ∧
-      ∀ c ∈ cs, ∃ rs' id' d' sq', FaComplete c rs' id' d' sq' := by
-  induction hp with
-  | nil h0 => intro rs id d sq hc; exact absurd h0 (fun h => complete_not_allEol hc h)
-  | @lastStripped t _ =>
-    intro rs id d sq hc
-    have hs := complete_strip hc
-    refine ⟨⟨[rs ++ [mkRec id d sq]], ?_, by simp⟩, ?_⟩
-    · simp [parseFasta_complete hs]
-    · intro c hcm; simp at hcm; subst hcm; exact ⟨rs, id, d, sq, hs⟩
-  | @lastRaw t _ =>
-    intro rs id d sq hc
-    refine ⟨⟨[rs ++ [mkRec id d sq]], ?_, by simp⟩, ?_⟩
-    · simp [parseFasta_complete hc]
-    · intro c hcm; simp at hcm; subst hcm; exact ⟨rs, id, d, sq, hc⟩
-  | @cut a b cs hcut _ _ ih =>
-    intro rs id d sq hc
-    obtain ⟨⟨a', e, ha, he⟩, t', hb⟩ := hcut
-    obtain ⟨pe, hrun⟩ := hc
-    subst ha; subst hb
-    obtain ⟨id1, d1, sq1, rs1, rs2, hA, hB, _, hrs⟩ := faRun_cut he hrun
-    have hca : FaComplete (a' ++ [e]) rs1 id1 d1 sq1 := ⟨true, hA⟩
-    have hcb : FaComplete (62 :: t') rs2 id d sq := ⟨pe, hB⟩
-    obtain ⟨⟨rss, hmap, hflat⟩, hall⟩ := ih rs2 id d sq hcb
-    have hsa := complete_strip hca
-    refine ⟨⟨(rs1 ++ [mkRec id1 d1 sq1]) :: rss, ?_, ?_⟩, ?_⟩
-    · simp [parseFasta_complete hsa, hmap]
-    · simp [hflat, hrs]
-    · intro c hcm
-      simp only [List.mem_cons] at hcm
-      rcases hcm with rfl | hcm
-      · exact ⟨rs1, id1, d1, sq1, hsa⟩
-      · exact hall c hcm
-  | @skip a b cs hcut hnil _ _ =>
-    intro rs id d sq hc
-    obtain ⟨⟨a', e, ha, he⟩, t', hb⟩ := hcut
-    obtain ⟨pe, hrun⟩ := hc
-    subst ha; subst hb
-    obtain ⟨id1, d1, sq1, rs1, rs2, hA, _, _, _⟩ := faRun_cut he hrun
-    exact absurd (allEol_of_strip_nil hnil) (fun h => complete_not_allEol ⟨true, hA⟩ h)
 
 /-- **chunks_cut_at_boundaries** (FASTA): every chunk of a file that is a whole number of records is
 itself a whole number of records, whatever the buffer size. -/
@@ -252,14 +126,6 @@ theorem parseFasta_append (c1 : Seq) (rs : List Rec) (id d sq : Seq) (h1 : FaCom
     | error x => rfl
     | ok l => simp
 
-theorem range_map_getD {α β : Type} (cs : List α) (d : α) (f : α → β) :
-    (List.range cs.length).map (fun k => f (cs.getD k d)) = cs.map f := by
-  apply List.ext_getElem
-  · simp
-  · intro i h1 h2
-    simp at h1
-    simp [h1]
-
 /-- **reader_independent** (FASTA).  `file` is any text the chunk parser reads as a whole number of
 records (`FaComplete`: no error, ends inside a sequence).  For EVERY read-buffer size `b ≥ 2` the
 chunk reader terminates with some chunks `cs`; the parser workers turn chunk `k` into the batch
@@ -282,11 +148,103 @@ theorem reader_independent (file : Seq) (rs : List Rec) (id d sq : Seq)
   · rw [reseq_perm (fun k => parseFasta (cs.getD k [])) cs.length ks hperm, range_map_getD, hmap]
   · rw [parseFasta_complete hw, hflat]
 
+/-- **wellFormed_complete**: every file of the FASTA grammar `WellFormedFasta` (Lemmas/FastaGrammar.lean:
+title lines starting with a non-blank byte and containing anything but `\n`/`\r` — also `>`, `@`,
+`+` —, sequences over the alphabet folded over any number of lines, LF / CR LF / blank lines as
+separators, optional trailing end-of-line bytes) is read as a whole number of records. -/
+theorem wellFormed_complete (file : Seq) (h : WellFormedFasta file) :
+    ∃ rs id d sq, FaComplete file rs id d sq := ObiVerif.Parse.wellFormed_complete h
+
+/-- **reader_independent** stated on the grammar: ∀ well-formed FASTA file, ∀ buffer size ≥ 2,
+∀ arrival order of the parsed chunks at the re-sequencer: the released batches carry, in order, the
+records of the one-chunk parse. -/
+theorem reader_independent_wellFormed (file : Seq) (hw : WellFormedFasta file) (b : Nat) (hb : 2 ≤ b) :
+    ∃ cs, chunks splitFasta b file = some cs ∧
+      ∀ ks : List Nat, ks.Perm (List.range cs.length) →
+        ∃ rss : List (List Rec),
+          reseq (ks.map fun k => (k, parseFasta (cs.getD k []))) = rss.map Except.ok ∧
+          parseFasta file = .ok rss.flatten := by
+  obtain ⟨rs, id, d, sq, hc⟩ := ObiVerif.Parse.wellFormed_complete hw
+  exact reader_independent file rs id d sq hc b hb
+
+instance (e : Seq) : Decidable (AllEol e) := by unfold AllEol; infer_instance
+instance (e : Seq) : Decidable (NoEol e) := by unfold NoEol; infer_instance
+instance (e : Seq) : Decidable (SeqBytes e) := by unfold SeqBytes; infer_instance
+
+/-- non-vacuity of the grammar: `>a x␊AC␊GT␊>b␍␊T␊` -/
+example : WellFormedFasta [62, 97, 32, 120, 10, 65, 67, 10, 71, 84, 10, 62, 98, 13, 10, 84, 10] :=
+  ⟨_, [10],
+    FastaRecords.more (h := [97, 32, 120]) (e := [10]) (body := [65, 67, 10, 71, 84]) (e' := [10])
+      (rest := [62, 98, 13, 10, 84])
+      ⟨97, [32, 120], rfl, by decide, by decide⟩ ⟨by decide, by decide⟩
+      (SeqLines.more (l := [65, 67]) (e := [10]) (rest := [71, 84]) ⟨by decide, by decide⟩
+        ⟨by decide, by decide⟩ (SeqLines.one ⟨by decide, by decide⟩))
+      ⟨by decide, by decide⟩
+      (FastaRecords.one (h := [98]) (e := [13, 10]) (body := [84]) ⟨98, [], rfl, by decide, by decide⟩
+        ⟨by decide, by decide⟩ (SeqLines.one ⟨by decide, by decide⟩)),
+    by decide, rfl⟩
+
 /-- the empty file: no chunk, no record, for every buffer size -/
 theorem reader_empty_file (split : Seq → Int) (b : Nat) (hb : 1 ≤ b) : chunks split b [] = some [] := by
   unfold chunks readFull
   have : ¬ (0 = b) := by omega
   simp [this]
+
+/-! ## 4. FASTQ and flat-file splitters: contract of `ReadSeqFileChunk` -/
+
+/-- `EndOfLastFastqEntry` returns −1 or a position in `[1, len]` -/
+theorem splitFastq_contract : SplitterOK splitFastq (fun _ _ => True) := splitFastq_ok
+
+/-- a non-negative result of `EndOfLastFastqEntry` follows an end-of-line byte (it is a line start) -/
+theorem splitFastq_line_start (buf : Seq) (h : 0 ≤ splitFastq buf) :
+    ∃ e, buf[(splitFastq buf).toNat - 1]? = some e ∧ isEol e = true := by
+  unfold splitFastq at h ⊢
+  rcases fqScan_spec buf.reverse with h1 | ⟨cut, h1, h2, h3, e, he, hee⟩
+  · omega
+  · rw [h1]
+    simp only [Int.toNat_natCast]
+    refine ⟨e, ?_, hee⟩
+    simp only [List.length_reverse] at he h3
+    rw [List.getElem?_reverse (by omega)] at he
+    have : buf.length - 1 - (buf.length - cut) = cut - 1 := by omega
+    rw [this] at he
+    exact he
+
+/-- `EndOfLastFlatFileEntry` returns −1 or a position in `[1, len]` -/
+theorem splitFlat_contract : SplitterOK splitFlat (fun _ _ => True) := splitFlat_ok
+
+/-- hence, for the four formats: whatever the buffer size ≥ 2, the chunk reader terminates and its
+chunks, in order, are the file minus runs of end-of-line bytes; no chunk is empty -/
+theorem chunks_all_formats (b : Nat) (hb : 2 ≤ b) (file : Seq) :
+    ∀ split ∈ [splitFasta, splitFastq, splitFlat],
+      ∃ cs, chunks split b file = some cs ∧ StripJoin cs file ∧ ∀ c ∈ cs, c ≠ [] := by
+  intro split hmem
+  simp only [List.mem_cons, List.not_mem_nil, or_false] at hmem
+  rcases hmem with rfl | rfl | rfl
+  · obtain ⟨cs, h⟩ := chunks_terminate _ _ splitFasta_ok b hb file
+    exact ⟨cs, h, chunks_reassemble _ _ splitFasta_ok b file cs h⟩
+  · obtain ⟨cs, h⟩ := chunks_terminate _ _ splitFastq_ok b hb file
+    exact ⟨cs, h, chunks_reassemble _ _ splitFastq_ok b file cs h⟩
+  · obtain ⟨cs, h⟩ := chunks_terminate _ _ splitFlat_ok b hb file
+    exact ⟨cs, h, chunks_reassemble _ _ splitFlat_ok b file cs h⟩
+
+/-- (tests on samples) `@a␊AC␊+␊@I␊@b␊GG␊+␊II`: the `@` of the quality line (offset 8) is not a cut, the
+record start at offset 11 is; GenBank-like text: the cut follows `␊//␊` -/
+example : splitFastq [64, 97, 10, 65, 67, 10, 43, 10, 64, 73, 10, 64, 98, 10, 71, 71, 10, 43, 10, 73, 73] = 11 := by decide
+example : splitFlat [120, 120, 10, 47, 47, 10, 76, 79] = 6 := by decide
+
+/-! ## 5. Stated, not proved here (the models are tied to the code by the correspondence check)
+
+FASTQ — `splitFastq_is_record_start`: in a prefix of a text that `parseFastq` reads without error, a
+non-negative result of `splitFastq` is the offset of an `@` at which the parser is in state 11 (a record
+start): the pattern "line starting with `@`, line over the sequence alphabet, line starting with `+`"
+cannot begin on a sequence line (state 5: the next line would have to start with `+`) nor on a quality
+line (state 9: the next line would have to start with `@`).  With it, `parseFastq_append` and
+`reader_independent` for FASTQ follow as in section 3.
+GenBank / EMBL — `splitFlat` cuts after a `//` line; `parseEmbl (a ++ b) = parseEmbl a ++ parseEmbl b`
+when `a` ends with `\n//\n` or `\n//\r\n` because `emLine` returns the initial state at `//` (after the
+repair `C01-flatfile-record-state-reset`; false before it: witness two records, the second without
+`/db_xref="taxon:`), and likewise for GenBank up to the dead fields `id`/`seqB` in state `inHeader`. -/
 
 /-- non-vacuity: the two-record file `>a x>y␍␊AC␍␊GT␍␊>b␊TT␊` (folded sequence, CR LF, a title containing `>`) -/
 def exFile : Seq := [62, 97, 32, 120, 62, 121, 13, 10, 65, 67, 13, 10, 71, 84, 13, 10, 62, 98, 10, 84, 84, 10]
